@@ -4,7 +4,6 @@ package c01
 
 import (
 	"fmt"
-	"os"
 	"strings"
 	"testing"
 	"verif/fold"
@@ -13,6 +12,7 @@ import (
 	"pgregory.net/rapid"
 
 	"verif/e1"
+	"verif/oracle"
 	"verif/sqdb"
 	"verif/val"
 	"verif/vt"
@@ -157,11 +157,11 @@ func run(r *vt.Run, t vt.TB, s spec) {
 				return
 			}
 			// it has to be the table's own definition that is not understood:
-			// an index the library cannot interpret is left out (C10), it does
-			// not make the table unreadable. The same table without its
-			// CREATE INDEX statements must be refused as well.
+			// an index the library cannot interpret is left out (C10), and no
+			// other object of the file makes this table unreadable. The same
+			// table alone in a file must be refused as well.
 			if msg := refusedBecauseOfAnIndex(r, t, path, name); msg != "" {
-				r.Violation(t, s, "table-unreadable-because-of-an-index", "table %q (%s): Schema/Select fail with %v / %v; %s", name, ts.Def.SQL(), schemaErr, selErr, msg)
+				r.Violation(t, s, "table-unreadable-because-of-another-object", "table %q (%s): Schema/Select fail with %v / %v; %s", name, ts.Def.SQL(), schemaErr, selErr, msg)
 				return
 			}
 			continue
@@ -274,41 +274,34 @@ func isCore(ts e1.TableSpec) bool {
 
 var _ = val.Null
 
-// refusedBecauseOfAnIndex: name is refused in the file at path. SQLite drops
-// the table's explicit indexes in a copy of the file; if the library accepts
-// the table there, the message says which indexes were dropped.
+// refusedBecauseOfAnIndex: name is refused in the file at path. Is it the
+// table's own definition that is not understood? SQLite makes a new file that
+// holds nothing but this table (its CREATE TABLE text as stored now); if the
+// library accepts the table there, something else in the original file - an
+// index outside the grammar, a view, a trigger, a virtual table, another
+// table - made it unreadable, and the message says what the file holds.
 func refusedBecauseOfAnIndex(r *vt.Run, t vt.TB, path, name string) string {
-	idx, err := env.O.Query("q", "SELECT name FROM sqlite_master WHERE type = 'index' AND sql IS NOT NULL AND lower(tbl_name) = lower(?)", val.Text(name).AsStr())
+	rows, err := env.O.Query("q", "SELECT sql FROM sqlite_master WHERE type = 'table' AND lower(name) = lower(?)", val.Text(name).AsStr())
 	if err != nil {
-		r.Harness(t, "index list: %v", err)
+		r.Harness(t, "stored definition: %v", err)
 	}
-	if len(idx) == 0 {
+	if len(rows) != 1 || rows[0][0].T != 't' {
 		return ""
 	}
-	r.Count("refused-tables-retried-without-their-indexes", 1)
-	cp := env.NewPath()
-	defer sqdb.Remove(cp)
-	b, err := os.ReadFile(path)
+	r.Count("refused-tables-retried-alone-in-a-file", 1)
+	alone := env.NewPath()
+	defer sqdb.Remove(alone)
+	res, err := env.Create("alone", alone, 1024, 0, []oracle.Stmt{{SQL: string(rows[0][0].B)}})
+	env.O.Close("alone")
 	if err != nil {
-		r.Harness(t, "copy: %v", err)
+		r.Harness(t, "file with the table alone: %v", err)
 	}
-	if err := os.WriteFile(cp, b, 0o644); err != nil {
-		r.Harness(t, "copy: %v", err)
-	}
-	if err := env.O.Open("cp", cp); err != nil {
-		r.Harness(t, "open copy: %v", err)
-	}
-	var dropped []string
-	for _, row := range idx {
-		in := string(row[0].B)
-		if err := env.O.Exec("cp", "DROP INDEX "+e1.QIdent(in)); err != nil {
-			env.O.Close("cp")
-			r.Harness(t, "drop index %s: %v", in, err)
+	for _, x := range res {
+		if x.Err != "" {
+			return "" // (SQLite does not take the text on its own: refers to something else)
 		}
-		dropped = append(dropped, in)
 	}
-	env.O.Close("cp")
-	d2, err := sqlittle.Open(cp)
+	d2, err := sqlittle.Open(alone)
 	if err != nil {
 		return ""
 	}
@@ -316,9 +309,13 @@ func refusedBecauseOfAnIndex(r *vt.Run, t vt.TB, path, name string) string {
 	if _, err := sqlittle.VerifLow(d2).Schema(name); err != nil {
 		return ""
 	}
-	rows := 0
-	if err := d2.Select(name, func(sqlittle.Row) { rows++ }); err != nil {
+	if err := d2.Select(name, func(sqlittle.Row) {}); err != nil {
 		return ""
 	}
-	return fmt.Sprintf("in a copy of the file from which SQLite dropped the indexes %q the same table is accepted (%d rows)", dropped, rows)
+	others, _ := env.O.Query("q", "SELECT type || ' ' || name FROM sqlite_master WHERE lower(name) <> lower(?) ORDER BY rowid", val.Text(name).AsStr())
+	var names []string
+	for _, o := range others {
+		names = append(names, string(o[0].B))
+	}
+	return fmt.Sprintf("in a file that holds nothing but this table the same definition is accepted; the original file also holds %q", names)
 }
